@@ -27,6 +27,8 @@ ASSUMPTIONS = [
     "hypercorn.run.run is replaced by a recorder (as tests/test___main__.py does)",
     "loopback 127.0.0.0/8 and ::1 are bindable in the sandbox",
     "flag -> attribute table transcribed from docs/how_to_guides/configuring.rst",
+    "aioquic is not installed: for the alt-svc values derived from QUIC binds the constant "
+    "aioquic.h3.connection.H3_ALPN is provided as ['h3'] while those cases run",
 ]
 
 WORK = VERIF / ".work"
@@ -762,6 +764,13 @@ def headers_strategy(draw: Any) -> dict:
         "alt_svc": draw(st.lists(st.text(alphabet="abch3=\":0123456789; ", max_size=12),
                                  max_size=3)),
         "protocol": draw(st.sampled_from(["h11", "h2", "h3"])),
+        # QUIC binds of a TLS configuration: with no alt-svc value configured the header is
+        # derived from the ports actually bound (n sockets; created once or twice, as on a
+        # restart with the same Config)
+        "quic": draw(st.sampled_from([0, 0, 0, 1, 2])),
+        "recreate": draw(st.booleans()),
+        # another configuration of the same process bound QUIC sockets earlier
+        "earlier_quic": draw(st.sampled_from([False, False, True])),
     }
 
 
@@ -772,12 +781,54 @@ def run_headers(case: dict) -> CaseInfo:
         include_date_header=case["date"], include_server_header=case["server"],
         alt_svc_headers=list(case["alt_svc"]),
     )
+    quic_ports: List[int] = []
+    stubbed = []
+    hc.Config._quic_addresses = []  # class-level default: every case starts from a clean one
+    if case.get("earlier_quic"):
+        first = hc.Config.from_mapping(certfile="c.pem", keyfile="k.pem", bind=["127.0.0.1:0"],
+                                       quic_bind=["127.0.0.1:0"])
+        socks0 = first.create_sockets()
+        for s_ in socks0.secure_sockets + socks0.insecure_sockets + socks0.quic_sockets:
+            s_.close()
+    if case.get("quic"):
+        import sys
+        import types
+
+        try:
+            import aioquic.h3.connection  # noqa: F401
+        except ImportError:
+            # aioquic is not installed here: the one constant the header code reads from it is
+            # provided (ASSUMPTIONS); removed again below
+            pkg, h3, con = (types.ModuleType(n) for n in ("aioquic", "aioquic.h3",
+                                                          "aioquic.h3.connection"))
+            con.H3_ALPN = ["h3"]  # type: ignore[attr-defined]
+            for m in (pkg, h3, con):
+                sys.modules[m.__name__] = m
+                stubbed.append(m.__name__)
+        config.certfile, config.keyfile = "cert.pem", "key.pem"  # ssl_enabled; never loaded
+        config.bind = ["127.0.0.1:0"]
+        config.quic_bind = ["127.0.0.1:0"] * case["quic"]
+        for _ in range(2 if case.get("recreate") else 1):
+            socks = config.create_sockets()
+            quic_ports = [s_.getsockname()[1] for s_ in socks.quic_sockets]
+            for s_ in socks.secure_sockets + socks.insecure_sockets + socks.quic_sockets:
+                s_.close()
     orig = hc.time
     hc.time = lambda: case["now"]
     try:
-        headers = config.response_headers(case["protocol"])
+        try:
+            headers = config.response_headers(case["protocol"])
+            other = hc.Config().response_headers(case["protocol"])
+        except ImportError as e:
+            # only the derivation of alt-svc from QUIC addresses imports aioquic
+            raise Violation("alt_svc_derived_without_quic_bind", f"{e!r} with quic binds "
+                            f"{case.get('quic', 0)}")
     finally:
         hc.time = orig
+        for name in stubbed:
+            sys.modules.pop(name, None)
+    if any(n == b"alt-svc" for n, _ in other):
+        raise Violation("alt_svc_leaks_to_other_config", f"a fresh Config answers {other}")
     for n, v in headers:
         if not isinstance(n, bytes) or not isinstance(v, bytes):
             raise Violation("header_not_bytes", f"{n!r}: {v!r}")
@@ -797,6 +848,9 @@ def run_headers(case: dict) -> CaseInfo:
         want.append((b"server", b"hypercorn-" + case["protocol"].encode()))
     for a in case["alt_svc"]:
         want.append((b"alt-svc", a.encode()))
+    if not case["alt_svc"]:
+        for port in quic_ports:
+            want.append((b"alt-svc", b'h3=":%d"; ma=3600' % port))
     if headers != want:
         raise Violation("response_headers_wrong", f"got {headers} want {want}")
     return CaseInfo(
